@@ -19,6 +19,7 @@ From WG Require Import Algo.Llp.
 From WG Require Import Algo.EssSpec.
 From WG Require Import Algo.Ess.
 From WG Require Import Sort.Pipeline.
+From WG Require Import Transform.Pipelines.
 
 Extraction Language OCaml.
 
@@ -199,4 +200,19 @@ Extraction "model.ml"
   kdedup
   sdedup
   kleb
+  run_xop
+  run_parts
+  xop_spec
+  xop_nout
+  ksort
+  ksortd
+  symmetrize_sorted_par
+  symmetrize_sorted_par_lenders
+  phi_transpose
+  transpose_labeled_spec
+  boundaries
+  wf_graph
+  wf_lgraph
+  below
+  graph_arcs
 .
